@@ -843,3 +843,42 @@ def rule_version_flag_decided(ctx):
             ctx.violated("VERFLAG", key, f.where(), "an exit is reached after the version numbers were stored without version.modified being assigned: the flag keeps whatever an earlier comparison left, and Hclose rewrites the old DFTAG_VERSION element in place")
     ctx.floor("VERFLAG", 2, n, "(routines that store the file record's version numbers)")
     return n
+
+
+def rule_delete_checks_access_first(ctx):
+    """DELACC (C14): Vdelete and VSdelete take the object's instance out of the file's in-memory table (`tbbtrem`, destroy the
+    node) and then delete its descriptors.  On a file opened for reading the descriptor delete fails - after the table has
+    been damaged, so the object can no longer be attached in that session.  A routine that does both tests the file's
+    DFACC_WRITE bit before the `tbbtrem`."""
+    from .codec import ast_walk
+    from .facts import int_name
+    prog = ctx.prog
+    n = 0
+    for f in prog.lib_funcs():
+        ast = f.raw.get("ast")
+        if not ast:
+            continue
+        names = [c[1] for _b, _i, _s, c in f.calls()]
+        if "tbbtrem" not in names or "Hdeldd" not in names:
+            continue
+        n += 1
+        key = "DELACC:%s" % f.name
+        order = []
+        ast_walk(ast, lambda nd, st: (order.append(nd) if nd[0] in ("s", "if") and nd[1] is not None else None, True)[1])
+        checked = False
+        verdict = None
+        line = f.line
+        for nd in order:
+            if nd[0] == "if":
+                for x in walk(nd[1], True):
+                    if x[0] == "bin" and x[1] == "&" and int_name(x[3]) == "DFACC_WRITE":
+                        checked = True
+            if verdict is None and any(c[1] == "tbbtrem" for c in calls_in(nd[1], True)):
+                verdict = checked
+                line = nd[-3] if isinstance(nd[-3], int) else f.line
+        if verdict:
+            ctx.holds("DELACC", key, f.where(line), "the file's write access is tested before the instance is removed from the table", nontrivial=True)
+        else:
+            ctx.violated("DELACC", key, f.where(line), "the instance is removed from the in-memory table before anything tests the file's write access: on a read-only file the call fails later, with the object already unreachable for the session")
+    ctx.floor("DELACC", 2, n, "(routines that remove an instance from a table and delete its descriptors)")
+    return n
